@@ -15,6 +15,11 @@ CHECKS = {
         note=TB + "Overflow of long excluded (as the property says); operations the C++ rejects by assert are excluded by explicit Defined hypotheses; scalar/inf_rational is a recorded known finding.",
         technique="Lean 4 theorems over a per-overload model + differential correspondence (C++ harness vs native Lean driver) + exact-arithmetic oracle",
         design="§6 C15"),
+    "C13": dict(
+        text="The root-level part of sat_core (new_var, new_clause with its simplifications, new_eq/new_conj/new_disj/new_at_most_one/new_exct_one with shortcuts, pairwise and product encodings and the expression cache, root-level propagation) is modelled in Lean (OratioModel/Sat/Enc.lean). 14 theorems C13_* prove for ALL argument lists and all reachable states: the invariant (every cached expression means what its key says) is preserved; eq/conj/disj literals are equivalent to their formula in every model; at-most-one/exactly-one literals force the cardinality constraint, lose no model of the old state, and (when built rather than fetched) can be true in every assignment satisfying the constraint - for any length (strong induction through the recursive product encoding). The model is tied to the code by exact equality of returned literal, root values and whole clause database after every operation on generated histories (exhaustive small sign/root-value combinations, duplicates/complements/constants, lists up to 26 arguments); a DPLL oracle judges the implementation's own clause database.",
+        note=TB + "The cache key (a string in the C++) is modelled as structured data; std::sort by variable is modelled as a stable sort (order-sensitive lists kept below 17 elements where libstdc++ uses insertion sort); ceil(sqrt(n)) on doubles is modelled by Nat.sqrt (agreement checked by the correspondence up to the generated lengths); operations at root level (documented precondition).",
+        technique="Lean 4 theorems (invariant + per-constructor semantics, product encoding by strong induction) + differential correspondence of the clause database + DPLL oracle",
+        design="§6 C13"),
 }
 
 PENDING = {
